@@ -8,6 +8,8 @@ list (modulo its length), so deleting an op while shrinking keeps the rest meani
   ["remove", i]               remove(model[i])
   ["remove_nonchild", name]   remove(<a stub that was never added>)
   ["add_nested", name]        add_child(<a CHECKED child holding one child of its own>)
+  ["share_out", i]            <another element of e's class>.add_child(model[i]): the child object now has two parents
+  ["add_again", i]            add_child(model[i]) once more
   ["remove_grandchild", i]    remove(<first child of the i-th held child that has children>): not a child of e
   ["remove_elsewhere", name]  remove(<a child attached to ANOTHER checked element of e's class>): the bystander must
                               stay as it was (recorded in obs()['side_effects'])
@@ -139,6 +141,25 @@ class Run:
                 self.model.append(c)
                 if call(c.get_children, False).value:
                     self.flags.add('nested')
+        elif k == 'share_out':
+            # the same child OBJECT is also added to a second parent of e's class (nothing forbids it)
+            if not self.model:
+                return self._finish(op, None)
+            ro = call(driver.fresh, self.el, True, True)
+            if not ro.ok:
+                return self._finish(op, None)
+            self.keep.append(ro.value)
+            r = call(ro.value.add_child, self.model[op[1] % len(self.model)])
+            self.flags.add('shared-child')
+        elif k == 'add_again':
+            # a child object that is already held is added once more
+            if not self.model:
+                return self._finish(op, None)
+            c = self.model[op[1] % len(self.model)]
+            r = call(e.add_child, c)
+            if r.ok:
+                self.model.append(c)
+            self.flags.add('shared-child')
         elif k == 'remove_grandchild':
             cands = [c for c in self.model if call(c.get_children, False).value]
             if not cands:
@@ -361,7 +382,7 @@ def classify_symbols(run):
 DEFAULT_WEIGHTS = {
     'add': 10, 'add_fwd': 2, 'remove': 3, 'remove_nonchild': 1, 'replace': 2, 'replace_fn': 1, 'replace_nonchild': 1,
     'dot_inst': 2, 'dot_val': 1, 'dot_none': 2, 'to_string': 2, 'deepcopy': 0, 'set_attr': 0, 'set_attr_none': 0,
-    'set_value': 0, 'add_nested': 0, 'remove_grandchild': 0, 'remove_elsewhere': 0,
+    'set_value': 0, 'add_nested': 0, 'remove_grandchild': 0, 'remove_elsewhere': 0, 'share_out': 0, 'add_again': 0,
 }
 
 
@@ -401,7 +422,7 @@ def draw_op(data, run, weights=None, sym_bias=None):
     if weights:
         w.update(weights)
     if not run.model:
-        for k in ('remove', 'replace', 'replace_fn'):
+        for k in ('remove', 'replace', 'replace_fn', 'share_out', 'add_again'):
             w[k] = 0
     if not text_children(run):
         w['dot_val'] = 0
@@ -423,6 +444,8 @@ def draw_op(data, run, weights=None, sym_bias=None):
         return ['add_nested', n]
     if k == 'remove_grandchild':
         return ['remove_grandchild', data.draw(st.integers(0, 3))]
+    if k in ('share_out', 'add_again'):
+        return [k, data.draw(st.integers(0, max(len(run.model) - 1, 0)))]
     if k == 'remove_elsewhere':
         return ['remove_elsewhere', data.draw(st.sampled_from(run.alphabet))]
     if k == 'replace':
